@@ -269,6 +269,15 @@ def observe(prog, order=None):
         for oc, om, off in sa.get_xref_from(with_offset=True):
             k = mk(om)
             srefs.add((ids.get("s", sa.get_orig_value()), k[0], k[1], k[2], off))
+    crefs_m_all = set()                    # the method-side lists again, over Analysis.get_methods() (every definition of a class)
+    for ma in dx.get_methods():
+        if ma.is_external():
+            continue
+        me = mk(ma)
+        for oc, off in ma.get_xref_new_instance():
+            crefs_m_all.add((0x22, ids.cls(oc.name), me[0], me[1], me[2], off))
+        for oc, off in ma.get_xref_const_class():
+            crefs_m_all.add((0x1C, ids.cls(oc.name), me[0], me[1], me[2], off))
     # number of FieldAnalysis objects per defined field, and the call graph
     nfa = {}
     for fa in dx.get_fields():
@@ -284,7 +293,7 @@ def observe(prog, order=None):
                  sorted(tuple(mk(m) + [1 if m.is_external() else 0]) for m in dx.get_methods()),
                  sorted(ids.get("s", s.get_orig_value()) for s in dx.get_strings() if s.get_orig_value() in STRS)]
     return {"calls": sorted(calls), "calls_from": sorted(calls_from), "strings": sorted(srefs), "crefs_m": sorted(crefs_m),
-            "crefs_c": sorted(crefs_c), "frefs": sorted(frefs), "frefs_m": sorted(frefs_m), "ext": sorted(ext),
+            "crefs_c": sorted(crefs_c), "crefs_m_all": sorted(crefs_m_all), "frefs": sorted(frefs), "frefs_m": sorted(frefs_m), "ext": sorted(ext),
             "nfa": sorted((list(k), v) for k, v in nfa.items()), "edges": sorted(edges), "inventory": inventory,
             "stub_dups": sorted(k for k, v in stubs.items() if len(v) > 1), "fobjs": sorted(fobjs)}
 
@@ -469,6 +478,32 @@ def oracle_c15(case, res):
         return "new-instance/const-class cross-references differ: (kind, class, user class, method, descriptor, offset) %r is %s" % (
             r, "reported but not in the code" if r in gm else "in the code but not reported")
     return None
+
+
+def gen_shadow(rng, tier, ctx):
+    """two DEX files that define the same class names with different code (a class shadowed by an earlier DEX file)"""
+    cases = []
+    for _ in range(40 if tier == "thorough" else 8):
+        a, b = gen_program(rng, ndex=1), gen_program(rng, ndex=1)
+        cases.append({"dex": [a["dex"][0], b["dex"][0]], "order": rng.choice(([0, 1], [1, 0]))})
+    return cases
+
+
+def impl_shadow(case):
+    return observe(case, order=case["order"])
+
+
+def oracle_shadow(case, res):
+    if isinstance(res, Err):
+        return "analysis failed: %s %s" % (res.name, res.msg[:150])
+    res = dict(res)
+    res["crefs_m"] = res["crefs_m_all"]
+    return oracle_c15(case, res)
+
+
+def STREAM15_SHADOW():
+    return {"name": "shadowed-definitions", "gen": gen_shadow, "impl": impl_shadow, "canon": lambda r: [r["strings"], r["crefs_c"], r["crefs_m_all"]],
+            "pinned": False, "oracle": oracle_shadow, "stats": lambda cases, results: {"programs": len(cases)}, "case_timeout": 120}
 
 
 # ---- C14 ----
